@@ -33,9 +33,9 @@ class Call:
 
 
 class World:
-    def __init__(self, prog: Program, oracle, origin, user_services: Dict[str, Any]):
+    def __init__(self, prog: Program, oracle, origin, user_services: Dict[str, Any], machine_cls=None):
         self.prog = prog
-        self.m = M.Machine(prog, oracle)
+        self.m = (machine_cls or M.Machine)(prog, oracle)
         self.oracle = oracle
         self.info = prog.info
         self.model: fam.Model = prog.info['model']
